@@ -187,6 +187,7 @@ type Lemma struct {
 	Line     int
 	Mode     string
 	Hint     []Expr // extra instantiation hints (terms asserted as trivially true equalities)
+	Anchors  [][2]string // (file relative to the repository, text it must contain) for axioms that transcribe source text
 }
 
 type GlobalFact struct {
@@ -1345,6 +1346,17 @@ func (p *parser) parseLemma() (*Lemma, error) {
 			}
 		case "reason":
 			lm.Reason = p.adv().s
+		case "anchor":
+			// anchor "file" "text": the axiom describes source text (a regular expression, a table) that the
+			// engine does not interpret; it is only valid while that file still contains exactly this text
+			if p.peek().k != "str" {
+				return nil, p.errf("anchor needs a file name and a text")
+			}
+			file := p.adv().s
+			if p.peek().k != "str" {
+				return nil, p.errf("anchor needs a file name and a text")
+			}
+			lm.Anchors = append(lm.Anchors, [2]string{file, p.adv().s})
 		case "mode":
 			lm.Mode = p.adv().s
 		case "trigger":
@@ -1379,4 +1391,4 @@ func (p *parser) parseLemma() (*Lemma, error) {
 	return lm, nil
 }
 
-var lemmaKw = map[string]bool{"requires": true, "ensures": true, "induction": true, "props": true, "uses": true, "reason": true, "trigger": true, "mode": true, "hint": true}
+var lemmaKw = map[string]bool{"requires": true, "ensures": true, "induction": true, "props": true, "uses": true, "reason": true, "trigger": true, "mode": true, "hint": true, "anchor": true}
